@@ -681,6 +681,22 @@ def cli_against(z, w, opts):
         srv.shutdown()
 
 
+def cli_multi(z, ws, opts, tmp, tag):
+    """One run of the real CLI over several scripted servers listed in a targets file (-T), one worker thread: the targets are audited in file order."""
+    import peers as P
+    srvs = [P.new_ssh2_server(wire_spec(w), io_timeout=8.0, stall_limit=4.0) for w in ws]
+    tf = os.path.join(tmp, 'targets_%s.txt' % tag)
+    try:
+        with open(tf, 'w') as f:
+            f.write(''.join('127.0.0.1:%d\n' % sv.port for sv in srvs))
+        res = z.run(['-n', '--skip-rate-test', '-t', '5', '--threads', '1'] + opts + ['-T', tf], timeout=240)
+        res['ports'] = [sv.port for sv in srvs]
+        return res
+    finally:
+        for sv in srvs:
+            sv.shutdown()
+
+
 def errors_of(res, as_json):
     """(passed, [mismatched fields]) from the CLI output, or None when the output is not a policy verdict."""
     import re
@@ -713,6 +729,9 @@ def e2e_case(z, case):
             r['text_after'] = f.read()
         r['self'] = cli_against(z, w, ['-P', pf] + (['-j'] if idx % 3 == 0 else []))
         r['drift'] = [cli_against(z, w2, ['-P', pf] + (['-j'] if (idx + k) % 2 == 0 else [])) for k, (_, _, w2) in enumerate(perts)]
+        if perts and not w['client'] and idx % 2 == 0:
+            # one run over [drifted peer, the peer itself]: the peer the policy was made from still passes with no errors
+            r['multi'] = cli_multi(z, [perts[0][2], w], ['-P', pf, '-j'], tmp, str(idx))
     return r
 
 
@@ -749,6 +768,22 @@ def judge_case(case, r):
     if not (sv[0] is True and r['self']['rc'] == 0):
         v.append(('e2e/self-fails/%s' % (c06.field_class(sv[1][0]) if sv[1] else 'no-error'),
                   'the policy -M made from the peer fails on the same peer: exit status %r, errors about %r' % (r['self']['rc'], sv[1]), dict(rp, policy_text=r['text'])))
+    if 'multi' in r:
+        n += 1
+        m = r['multi']
+        rp3 = {'op': 'e2e multi-target', 'wire': w, 'first_target': perts[0][2], 'drift': perts[0][0], 'policy_text': r['text']}
+        try:
+            arr = {el['port']: el for el in json.loads(m['out'])}
+            own = arr[m['ports'][1]]
+            other = arr[m['ports'][0]]
+            nt.add(('multi', own['passed'], len(own['errors']), other['passed']))
+            if own['passed'] is not True or own['errors']:
+                v.append(('e2e/multi-target/self-not-clean', 'audited after a drifted peer in one -P -T run, the peer the policy was made from is reported passed=%r with errors about %r' % (
+                    own['passed'], [e['mismatched_field'] for e in own['errors']]), rp3))
+            if other['passed'] is not False or [e['mismatched_field'] for e in other['errors'] if e['mismatched_field'] not in perts[0][1]]:
+                v.append(('e2e/multi-target/drift-verdict', 'the drifted peer (%s) in a -P -T run is reported passed=%r with errors about %r' % (perts[0][0], other['passed'], [e['mismatched_field'] for e in other['errors']]), rp3))
+        except (ValueError, KeyError, TypeError, IndexError) as e:
+            v.append(('e2e/multi-target/no-verdicts', '-P -T -j over two targets: exit status %r, %s: %s' % (m['rc'], type(e).__name__, (m['out'] + m['err'])[-300:]), rp3))
     for k, ((kind, fields, w2), dr) in enumerate(zip(perts, r['drift'])):
         n += 1
         dv = errors_of(dr, (idx + k) % 2 == 0)
